@@ -125,7 +125,8 @@ Definition set_field_norm (o : nopts) (cfg : value) (name : string) (ov : option
               | Some dn => Err EDuplicateKey (path_of "" dn)
               | None => Ok tt
               end ;;
-         m <- merge_full (n_m o) (Some (VSub d a)) (VSub d2 a2) ;;
+         (* folding is part of reading one input: default policy, whatever the call's policy is (fix F55) *)
+         m <- merge_full {| m_h := 0%N; m_ft := None |} (Some (VSub d a)) (VSub d2 a2) ;;
          (fix put (fs : list field) (pp : string) (node : value) : res value :=
             match fs with
             | [] => Ok m
